@@ -46,9 +46,12 @@ Bases ==
       [] Shape = "tree6"    -> << <<3>>, <<3>>, <<5>>, <<5>>, <<6>>, <<>> >>  \* tree5 + 6 beyond Any
       [] Shape = "diamond4" -> << <<2, 3>>, <<4>>, <<4>>, <<>> >>             \* 1(2,3), 2(4), 3(4)
       [] Shape = "diamond5" -> << <<2, 3>>, <<4>>, <<4>>, <<>>, <<2>> >>      \* + 5(2): shares ancestor 2 with 1
+      [] Shape = "lop5"     -> << <<2, 5>>, <<3>>, <<4>>, <<>>, <<4>> >>      \* lopsided: 1(2,5), 2(3), 3(4), 5(4): the SECOND direct base 5 is
+                                                                             \* nearer than the ancestors 3, 4 of the first (breadth first /= MRO)
 AnyC ==
     CASE Shape = "chain3" -> 3 [] Shape = "chain4" -> 3 [] Shape = "chain5" -> 4
       [] Shape = "tree5" -> 5 [] Shape = "tree6" -> 5 [] Shape = "diamond4" -> 4 [] Shape = "diamond5" -> 4
+      [] Shape = "lop5" -> 4
 
 Cls == 1..Len(Bases)
 
